@@ -35,7 +35,10 @@ SWEEP_SET = {'quick': '6 corpus files: all prefixes (3 dialects), all single-byt
              'thorough': '9 corpus files, same fault kinds, compile() truncations every 3rd offset'}
 
 ALPHABET = ['@', '"', '{', '7', '\n', '%']
-INSERTS = {'illegal': '@', 'illegal-pct': '% 100% wrong', 'forbidden': 'FALSE', 'bignum': '99999999999999999999999', 'dashid': 'trailing-', 'forbidden2': 'zzz NULL'}
+INSERTS = {'illegal': '@', 'illegal-pct': '% 100% wrong', 'forbidden': 'FALSE', 'bignum': '99999999999999999999999', 'dashid': 'trailing-', 'forbidden2': 'zzz NULL',
+           'illegal-ctrlz': '\x1a', 'illegal-nul': '\x00',
+           # a forbidden ASN.1 keyword with a comment glued to it: one odd identifier or an error, never the bare keyword
+           'glued-forbidden': 'ZzGlued ::= BOOLEAN--glued'}
 DIALECTS = ['smiV1Relaxed', 'smiV2', 'smiV1']
 _parsers = {}
 _intact = {}
@@ -216,7 +219,11 @@ def run(scn):
                 J.units += 1
                 J.fire('insert:' + what)
                 J.clause1(res, text, 'for file %s with %r inserted as line %d' % (f.name, tok, line))
-                if res[0] == 'ok':
+                if what == 'glued-forbidden':
+                    if res[0] == 'ok' and re.search(r"'BOOLEAN'", repr(res[1])):
+                        J.V('C11.3-truncated', 'the forbidden keyword BOOLEAN (comment glued to it) inserted as line %d of %s came back as a name in the tree' % (line, f.name),
+                            what='forbidden-keyword-accepted', inserted=what)
+                elif res[0] == 'ok':
                     J.V('C11.3-truncated', '%r inserted as line %d of %s was accepted' % (tok, line, f.name), what='accepted-garbage', inserted=what)
                 elif res[0] == 'lexerr':
                     want = line if what != 'forbidden2' else line
@@ -571,7 +578,8 @@ def sweep(tier):
                 out.append({'k': 'prefix', 'tier': tier, 'file': fi, 'dialect': d, 'lo': lo, 'hi': min(lo + step, n + 1)})
         for lo in range(0, n, 60):
             out.append({'k': 'replace', 'tier': tier, 'file': fi, 'lo': lo, 'hi': min(lo + 60, n)})
-        dl = f.decl_lines()
+        # insertion points: before every declaration / END, and before every module header (i.e. between modules and before the first)
+        dl = sorted(set(f.decl_lines() + [a + 1 for (a, b) in f.mod_lines]))
         for i in range(0, len(dl), 10):
             out.append({'k': 'insert', 'tier': tier, 'file': fi, 'lines': dl[i:i + 10]})
         sspans = [(a, b) for (a, b) in token_spans(f) if f.text[a] == '"']
